@@ -391,6 +391,15 @@ def triples(seed, count, maxcells=3, minors=(5, 4, 2), max_edits=2, ops=None):
     bases = base_notebooks(maxcells, minors)
     for k in range(count):
         b = bases[k % len(bases)] if k < 2 * len(bases) else rnd.choice(bases)
+        u = rnd.random()
+        if ops is None and u < 0.12:
+            yield concurrent_insert_triple(b, rnd)
+            continue
+        if ops is None and u < 0.18:
+            t = concurrent_line_triple(b, rnd)
+            if t is not None:
+                yield t
+                continue
         common = b
         if rnd.random() < 0.3:
             # changes made identically on both sides (agreement), e.g. the same cell inserted by both
@@ -398,6 +407,68 @@ def triples(seed, count, maxcells=3, minors=(5, 4, 2), max_edits=2, ops=None):
         l = random_edits(common, rnd, rnd.randint(0, max_edits), ops)
         r = random_edits(common, rnd, rnd.randint(0, max_edits), ops)
         yield copy.deepcopy(b), l, r
+
+
+def concurrent_insert_triple(b, rnd):
+    """Both sides insert at the same position: blocks of unrelated cells of different lengths, then a cell
+    that is identical or similar on both sides; optionally identical filler cells around a shared cell."""
+    pool = cell_pool()
+    minor = b['nbformat_minor']
+    counter = [0]
+
+    def fresh(c, tag):
+        c = nbformat.from_dict(copy.deepcopy(c))
+        counter[0] += 1
+        if minor >= 5:
+            c['id'] = '%s-%d-%04x' % (tag, counter[0], rnd.randrange(16 ** 4))
+        else:
+            c.pop('id', None)
+        return c
+    pos = rnd.choice([0, len(b['cells'])])
+    shape = rnd.random()
+    x = rnd.choice(pool)
+    if shape < 0.5:
+        lblock = [fresh(rnd.choice(pool), 'L') for _ in range(rnd.randint(0, 3))]
+        rblock = [fresh(rnd.choice(pool), 'R') for _ in range(rnd.randint(0, 3))]
+        lx, rx = fresh(x, 'L'), fresh(x, 'R')
+        if rnd.random() < 0.7:
+            rx['source'] = rx['source'] + '# remote tweak\n' if rx['source'].endswith('\n') or not rx['source'] else rx['source'] + '\n# remote tweak\n'
+        if rnd.random() < 0.3:
+            lx['metadata'] = nbformat.from_dict({'tags': ['l']})
+        tail = [fresh(rnd.choice(pool), 'T')] if rnd.random() < 0.3 else []
+        lcells, rcells = lblock + [lx] + tail, rblock + [rx] + [copy.deepcopy(t) for t in tail]
+    else:
+        filler = rnd.choice([md_cell(''), code_cell(''), raw_cell('')])
+        lcells = [fresh(filler, 'L'), fresh(x, 'L'), fresh(filler, 'L')]
+        rcells = [fresh(x, 'R')]
+        if rnd.random() < 0.5:
+            lcells, rcells = rcells, lcells
+    l, r = copy.deepcopy(b), copy.deepcopy(b)
+    l['cells'][pos:pos] = lcells
+    r['cells'][pos:pos] = rcells
+    return copy.deepcopy(b), l, r
+
+
+def concurrent_line_triple(b, rnd):
+    "same idea inside one cell's source: one side inserts blank lines around a line the other side also inserts"
+    if not b['cells']:
+        return None
+    i = rnd.randrange(len(b['cells']))
+    src = b['cells'][i]['source']
+    lines = src.splitlines(True)
+    if lines and not lines[-1].endswith('\n'):
+        lines[-1] += '\n'
+    pos = rnd.randint(0, len(lines))
+    shared = rnd.choice(['setup()\n', 'import re\n', '# step\n'])
+    filler = rnd.choice(['\n', '#\n'])
+    a_lines = lines[:pos] + [filler, shared, filler] + lines[pos:]
+    b_lines = lines[:pos] + [shared] + lines[pos:]
+    l, r = copy.deepcopy(b), copy.deepcopy(b)
+    if rnd.random() < 0.5:
+        a_lines, b_lines = b_lines, a_lines
+    l['cells'][i]['source'] = ''.join(a_lines)
+    r['cells'][i]['source'] = ''.join(b_lines)
+    return copy.deepcopy(b), l, r
 
 
 def pairs(seed, count, maxcells=3, minors=(5, 4, 2), max_edits=3):
